@@ -30,9 +30,13 @@ P = {
              text="Exploration: 1.5k / 100k random trees with every judged query (reflection-enumerated, name-classified) issued twice around an answer-clobbering step, and 60 / 2k trees queried by 8-16 goroutines under -race; "
                   "any race report, answer deviation or snapshot difference is a violation.", ref="2 C11",
              note="Trusted base: Go toolchain and race detector (no false positives on pure Go, misses races that do not occur in the run), VerifDump, the name-based classification of methods into mutators/queries (an unclassified method makes the run inconclusive)."),
+ "C12": dict(tech="runtime monitor: differential between an all-native tree and the same description with random alias forms, across String/Unmarshal/IsEqual/Traverse/IsNesting/Len/no-nesting/Transfer/Defrag/Convert*",
+             text="Exploration: 12k / 600k description pairs; every path of length <=3 traversed on both twins (3.1M pairs in quick), every alias form found probed against no-nesting stacks and Conditions, Convert* checked for identity on convertible and (zero,false) on 18 non-convertible values.", ref="2 C12"),
  "C13": dict(tech="runtime monitor: list model with the no-nesting bit over random push-batch/option-switch histories; Condition expression state machine",
              text="Exploration: 20k / 1M random histories of mixed push batches (native, alias, pointer-to-alias Stacks, Conditions, primitives, nil) interleaved with option switches, on all kinds and on Conditions; "
                   "content identity, CanNest and IsNesting checked after every step.", ref="2 C13"),
+ "C14": dict(tech="runtime monitor: recording closures with predicate-defined verdicts; call-log, content and Err identity oracle for push policies; closure-result vs never-configured-twin oracle for the other closures",
+             text="Exploration: 14k / 700k push histories under random accept/reject predicates with and without capacity, and 6k / 300k install/remove sequences of validity, presentation, equality, marshal, unmarshal and evaluator closures on Stacks of every kind and on Conditions.", ref="2 C14"),
  "C15": dict(tech="runtime monitor: exhaustive product of source/destination shapes with recursive VerifDump before/after diff",
              text="Exploration, exhaustive over the stated finite product (29k cases: lengths 0..6 x 0..6, capacity none/1..8, LIFO/FIFO, nil elements, 11 destination forms); "
                   "success implies dst0++src, capacity shortage and inert destinations imply false and an unchanged destination, the source never changes.", ref="2 C15"),
